@@ -560,8 +560,8 @@ func (ctx *Context) evaluate() {
 			}
 			length += 1
 
-			// length <= 0 意味着 _b - _a 溢出
-			if length > 512 || length <= 0 {
+			// (_b >= _a) 与 (_b-_a >= 0) 不一致意味着减法溢出
+			if length > 512 || length <= 0 || (_b >= _a) != (_b-_a >= 0) {
 				ctx.Error = errors.New("不能一次性创建过长的数组")
 				return
 			}
